@@ -4,7 +4,7 @@
     with "unset = 0"), latency bounds over LatencyModel.v (unbounded Z), and the
     lockset annotation of the fields shared with the periodic refresh. *)
 From Gnmi Require Import Base.Prelude CTree.CTreeModel Path.PathModel Cache.CacheModel
-  Cache.MultiCache Cache.C14Proofs Cache.C14Check Cache.C15Check Cache.C15Proofs Cache.C15Count Cache.C15Latest Latency.LatencyModel Latency.LatencyProofs.
+  Cache.MultiCache Cache.C14Proofs Cache.C14Check Cache.C15Check Cache.C15Proofs Cache.C15Count Cache.C15Latest Cache.C15History Cache.C15KSound Latency.LatencyModel Latency.LatencyProofs.
 Local Open Scope Z_scope.
 
 (** update_accounting.  Reading fixed in DESIGN section 6: the law is per
@@ -164,18 +164,17 @@ Theorem C15_K_latency_sound : forall S p st,
 Proof. exact kp_window_sound. Qed.
 Print Assumptions C15_K_latency_sound.
 
-(** latest_is_max, exact one-call form (round 7) -- PARTIAL with respect to the
-    history statement kept as a comment at the end of Cache/C15Latest.v: after
-    ANY notification (single, multi, atomic, delete, empty; panicking calls
-    included) the latest timestamp is max(old, n.timestamp) exactly when the
-    notification is tracked (index path of its FIRST update not under "meta":
-    the first update decides for the whole notification) and accepted
-    ([C15Latest.accepted]: the updateTS flag of the code), and unchanged otherwise *)
-Theorem C15_latest_exact_partial : forall t now n t' fd r,
+(** latest_is_max, exact one-call form (round 7): after ANY notification
+    (single, multi, atomic, delete, empty; panicking calls included) the latest
+    timestamp is max(old, n.timestamp) exactly when the notification is tracked
+    (index path of its FIRST update not under "meta": the first update decides
+    for the whole notification) and accepted ([C15Latest.accepted]: the
+    updateTS flag of the code), and unchanged otherwise *)
+Theorem C15_latest_exact : forall t now n t' fd r,
   target_gnmi_update t now n = (t', fd, r) ->
   t_ts t' = if tracks_ts n && accepted t now n then zmax_opt (t_ts t) (n_ts n) else t_ts t.
 Proof. exact latest_exact. Qed.
-Print Assumptions C15_latest_exact_partial.
+Print Assumptions C15_latest_exact.
 
 (** ... where a multi notification is accepted iff some update unit of it, run
     in the state its predecessors left and before any panic, was not refused by
@@ -197,3 +196,89 @@ Theorem C15_latest_is_max_of_units_refuted :
     tracks_ts (clone_with_update n u) = true /\ t_ts t' <> zmax_opt (t_ts t) (n_ts n).
 Proof. exact latest_is_max_of_units_refuted. Qed.
 Print Assumptions C15_latest_is_max_of_units_refuted.
+
+(** latest_is_max, HISTORY form: after every history of calls (no hypothesis on
+    the calls: single / multi / atomic notifications, deletes, Sync, Connect,
+    ConnectError, Reset, Add, Remove, UpdateMetadata, UpdateSize, subscribers,
+    panicking calls included) the latest timestamp of every target with a
+    non-empty name is the greatest timestamp of the accepted tracked
+    notifications handed to it since its last Reset / Add / Remove
+    ([tracked_since_reset]; [None] = time.Time{} when there is none) *)
+Theorem C15_latest_history : forall cfg names ops name t,
+  name <> ""%string ->
+  assoc name (c_targets (crun (new_cache cfg names) ops)) = Some t ->
+  t_ts t = zmax_list (tracked_since_reset name (new_cache cfg names) ops).
+Proof. exact latest_history. Qed.
+Print Assumptions C15_latest_history.
+
+(** ... and that is what UpdateMetadata then exports for the target: the
+    maximum, or the documented sentinel time.Time{}.UnixNano() when nothing was
+    accepted (KF-C15-2) *)
+Theorem C15_latest_history_exported : forall cfg names ops name t now,
+  name <> ""%string ->
+  assoc name (c_targets (crun (new_cache cfg names) ops)) = Some t ->
+  gi (t_meta (fst (fst (update_meta t now)))) md_latest_ts =
+  match zmax_list (tracked_since_reset name (new_cache cfg names) ops) with
+  | Some z => z
+  | None => zero_time_unixnano
+  end.
+Proof. exact latest_history_exported. Qed.
+Print Assumptions C15_latest_history_exported.
+
+(** [zmax_list] is the maximum: a member and an upper bound ([] <-> None) *)
+Theorem C15_zmax_list_is_max : forall l,
+  match zmax_list l with
+  | None => l = []
+  | Some m => In m l /\ forall y, In y l -> y <= m
+  end.
+Proof. exact zmax_list_spec. Qed.
+Print Assumptions C15_zmax_list_is_max.
+
+(** the hypothesis [name <> ""] is needed: in the model, Sync on a target named
+    "" is tracked (index list ["meta"; "sync"], second element not "meta") *)
+Theorem C15_latest_history_empty_name_refuted :
+  exists cfg names ops t,
+    assoc ""%string (c_targets (crun (new_cache cfg names) ops)) = Some t /\
+    t_ts t <> zmax_list (tracked_since_reset "" (new_cache cfg names) ops).
+Proof. exact latest_history_empty_name_refuted. Qed.
+Print Assumptions C15_latest_history_empty_name_refuted.
+
+(** K_P tag 5 follows the code.  Tracking: K_P's test on the first update is the
+    model's [tracks_ts] for every notification.  Acceptance: gnmiRemove returns
+    no error, so for a non-panicking multi notification "fewer errors returned
+    than updates submitted" ([C15Check.accepted_any]) is exactly the updateTS
+    flag of the code, whatever the deletes do *)
+Theorem C15_K_tracked_agrees : forall n, kp_tracked n = tracks_ts n.
+Proof. exact kp_tracked_agrees. Qed.
+Print Assumptions C15_K_tracked_agrees.
+
+Theorem C15_K_accept_is_updateTS : forall t now n us ds,
+  a_panic (fold_left (multi_delete_step n) ds
+             (fold_left (multi_update_step now n) us (Acc t [] [] false None))) = None ->
+  (a_ok (fold_left (multi_delete_step n) ds
+           (fold_left (multi_update_step now n) us (Acc t [] [] false None))) = true <->
+   (List.length (a_errs (fold_left (multi_delete_step n) ds
+                          (fold_left (multi_update_step now n) us (Acc t [] [] false None))))
+    < List.length us)%nat).
+Proof. exact multi_accept_is_fewer_errors. Qed.
+Print Assumptions C15_K_accept_is_updateTS.
+
+(** soundness of the K_P clause latest_is_max (tag 5), from the implementation's
+    observations alone: what K_P remembers for a target over the steps of a case
+    is the maximum of [obs_tracked] -- the timestamps of the notifications
+    addressed to the (existing) target since its last Reset / Add / Remove that
+    the implementation accepted and whose first update is tracked -- and a silent
+    clause means the exported value is that maximum (0 when there is none).
+    With C15_K_tracked_agrees / C15_K_accept_is_updateTS the two tests inside
+    [obs_tracked] are those of [tracked_since_reset] in C15_latest_history. *)
+Theorem C15_K_latest_memory_sound : forall t steps,
+  k_latest (kget (kt_run [] steps) t) = zmax_list (obs_tracked t steps []).
+Proof. exact kp_latest_memory_sound. Qed.
+Print Assumptions C15_K_latest_memory_sound.
+
+Theorem C15_K_latest_sound : forall ks ob t a m,
+  kp_latest_one ks ob t = [] ->
+  assoc t (o_tgts ob) = Some a -> to_meta a = Some m ->
+  geti m md_latest_ts = match k_latest (kget ks t) with Some z => z | None => 0 end.
+Proof. exact kp_latest_one_sound. Qed.
+Print Assumptions C15_K_latest_sound.
